@@ -362,7 +362,9 @@ def pauli_walk(model: Model, rep: Report):
         block = ("bound", "for", lp.node.lineno, show(lp.term))
         targets_all = ("call", ("fn", "intrf_noise_factory.extract_all_targets"), (), (("circuit", circ),))
         for bp in lp.extra["paths"]:
-            inner = [e for e in bp.events if e.kind == "loop"]
+            # the loops of construct itself (a helper that was read in place brings its own loops: they compute values, they do not dress or emit)
+            lo_, hi_ = f.node.lineno, getattr(f.node, "end_lineno", None) or 10 ** 9
+            inner = [e for e in bp.events if e.kind == "loop" and lo_ <= getattr(e.node, "lineno", lo_) <= hi_]
             if not inner:
                 raise AnalysisError(f"{construct}: no emit loop per block")
             E = inner[-1]
@@ -409,6 +411,9 @@ def pauli_walk(model: Model, rep: Report):
                 found_md = "0.5 * " + show(md)
                 if not dom_ok:
                     found_md = f"max over {show(gens[0][0]) if gens else '?'}" + (" with a filter" if gens and gens[0][1] else "")
+            if not ok_md and not (md is not None and md[0] == "call" and md[1] == "max"):
+                # not written as max(...) over the block: a running maximum / helper -- its value is not read here (block_local_time decides that it is per block)
+                raise AnalysisError(f"{construct}: the block duration {found_md[:120] if found_md else None} is not written as max(<durations of the block>); not read")
             rep.check(ok_md, "C14.N4", construct + "[block-duration]", f.loc, found=found_md, required="0.5 * max(settings.get_operation_duration(i.name) for i in <the whole block>)",
                       what="the idling time of a block is not half the duration of its longest operation (an instruction of the block is left out of the maximum)", detail="max-duration")
             rep.check(ok_args, "C14.N4", construct + "[time-and-coherence]", f.loc, found=show(args) if args else None, required="px, py, pz = get_pauli_error(t=max_duration/2, t1, t2 of THIS qubit)",
